@@ -119,6 +119,7 @@ class Interp:
         self.statics = {}     # (file, func, name) -> Cell : function-local statics are globals
         self.globals = {}     # (file, name) -> Cell
         self.const_axioms = {}
+        self.auto_stub = None
         self.domain_events = []
 
     # ---------------------------------------------------------------- counting must-fire rules
@@ -310,12 +311,24 @@ class Interp:
             s, c = self.uf('sin', t), self.uf('cos', t)
             self.axiom(s * s + c * c == 1, ('sc1', t.get_id()))
             # addition theorems for sums/differences (instantiated syntactically)
-            if z3.is_add(t) and t.num_args() == 2:
-                a, b = t.arg(0), t.arg(1)
+            if z3.is_add(t) and t.num_args() >= 2:
+                a = t.arg(0)
+                b = t.arg(1) if t.num_args() == 2 else z3.simplify(z3.Sum([t.arg(i) for i in range(1, t.num_args())]))
                 self._addition(t, a, b)
+                for x in (a, b):
+                    self.libm_axioms('sin', x, None)
             elif z3.is_sub(t) and t.num_args() == 2:
                 a, b = t.arg(0), t.arg(1)
                 self._addition(t, a, z3.simplify(-b), minus=b)
+                for x in (a, b):
+                    self.libm_axioms('sin', x, None)
+            elif z3.is_mul(t) and t.num_args() == 2 and z3.is_rational_value(t.arg(0)) and t.arg(0).numerator_as_long() == -1 and t.arg(0).denominator_as_long() == 1:
+                # sin(-x) = -sin x, cos(-x) = cos x
+                x = t.arg(1)
+                self.axiom(z3.And(self.uf('sin', t) == -self.uf('sin', x), self.uf('cos', t) == self.uf('cos', x)), ('neg', t.get_id()))
+                self.libm_axioms('sin', x, None)
+            elif z3.is_const(t) and t.decl().name() == 'c_PI':
+                self.axiom(z3.And(s == 0, c == -1), ('sinpi',))
         elif name == 'asin':
             s, c = self.uf('sin', r), self.uf('cos', r)
             self.axiom(z3.Implies(z3.And(t >= -1, t <= 1), z3.And(s == t, c >= 0, s * s + c * c == 1)), ('asin', t.get_id()))
@@ -1120,6 +1133,14 @@ class Interp:
             return self.construct(ty, args, d.braced)
         if n in self.w.classes or n.split('::')[-1] in self.w.classes:
             return self.construct(ty, [], False)
+        if n.endswith('PlainObject'):
+            fr = self.frames[-1]
+            for sc in fr.scopes:
+                for c in sc.values():
+                    if isinstance(c.v, Mat):
+                        self.fire('eigen-PlainObject')
+                        z = 0.0 if self.mode == 'float' else 0
+                        return Mat.fill(c.v.r, c.v.c, z, c.v.kind, c.v.cplx)
         return self.zero_of_type(ty)
 
     def try_lvalue_cell(self, e):
@@ -1423,6 +1444,8 @@ class Interp:
                     j = idx[1] if len(idx) > 1 else None
                     return (lambda: target.get(i, j)), (lambda v: target.set(i, j, v))
             v = self.ev(e)
+            if isinstance(v, MatView):
+                return (lambda: v), (lambda nv: v.write_back(nv))
             if isinstance(v, (Obj, Mat)):
                 return (lambda: v), (lambda nv: self._assign_into(v, nv))
             raise Unsupported('call as lvalue')
@@ -1434,7 +1457,7 @@ class Interp:
                 raise Unsupported('pointer indexing')
             if isinstance(arr, Mat):
                 return (lambda: arr.get(i)), (lambda v: arr.set(i, None, v))
-            if isinstance(arr, list):
+            if isinstance(arr, (list, DataView)):
                 if not isinstance(i, int):
                     raise Unsupported('symbolic array index')
                 if not (0 <= i < len(arr)):
@@ -1463,7 +1486,7 @@ class Interp:
         i = self.ev(e.i)
         if isinstance(arr, Mat):
             return arr.get(i)
-        if isinstance(arr, (list, tuple, str)):
+        if isinstance(arr, (list, tuple, str, DataView)):
             if not isinstance(i, int):
                 raise Unsupported('symbolic array index')
             if not (0 <= i < len(arr)):
@@ -1522,6 +1545,11 @@ class Interp:
             if b is not NotImplemented:
                 return b
             args = [self.ev(a) for a in e.args]
+            if self.auto_stub is not None:
+                r = self.auto_stub(self, s, args)
+                if r is not NotImplemented:
+                    self.fire('callee->ghost-value(auto)')
+                    return r
             cells = [self.try_lvalue_cell(a) if isinstance(a, (Id, Member)) else None for a in e.args]
             self.cur_line = line
             # implicit this
@@ -1682,11 +1710,12 @@ class Interp:
             n = min(m.r, m.c)
             return Mat(n, 1, [[m.d[i][i]] for i in range(n)], m.kind, m.cplx)
         if name == 'col':
-            k = args[0]
-            return Mat(m.r, 1, [[m.d[i][k]] for i in range(m.r)], m.kind, m.cplx)
+            return MatView(m, 'col', args[0])
         if name == 'row':
-            k = args[0]
-            return Mat(1, m.c, [list(m.d[k])], m.kind, m.cplx)
+            return MatView(m, 'row', args[0])
+        if name == 'swap' and isinstance(m, MatView) and isinstance(args[0], MatView):
+            m.swap(args[0])
+            return None
         if name == 'cwiseAbs' or name == 'abs':
             return m.map(self.m_abs, cplx=False)
         if name == 'cwiseAbs2' or name == 'abs2':
@@ -1758,7 +1787,18 @@ class Interp:
         if name in ('minCoeff', 'maxCoeff'):
             xs = m.elems()
             if args:
-                raise Unsupported('minCoeff with index output')
+                # minCoeff(&pos): the index is control-flow relevant -> explore both outcomes of each comparison
+                cell = args[0]
+                bi = 0
+                for i in range(1, len(xs)):
+                    c = cmp('<', xs[i], xs[bi]) if name == 'minCoeff' else cmp('>', xs[i], xs[bi])
+                    if self.decide(c):
+                        bi = i
+                if isinstance(cell, (Cell, FieldCell)):
+                    cell.v = bi
+                else:
+                    raise Unsupported('minCoeff(&pos) target')
+                return xs[bi]
             best = xs[0]
             for x in xs[1:]:
                 if name == 'minCoeff':
@@ -1796,7 +1836,7 @@ class Interp:
                 return m
             return r
         if name == 'data':
-            return m
+            return DataView(m)
         raise Unsupported('Eigen method %s' % name)
 
     def conj(self, x):
